@@ -757,12 +757,11 @@ func TestC13Structured(t *testing.T) {
 				w.V.Rtr.VerifExpireHello(w.P.IP())
 				_, _ = w.V.Rtr.HelloPing.Send(w.P.IP())
 				both := c.Chance("own-hello.peer-too", 1, 2)
-				if both {
+				peerFirst := both && c.Bool("own-hello.peer-before-seeing-the-request")
+				if peerFirst {
 					// ... and so does the peer, before it has seen the victim's request.
-					if node := w.P; node != nil {
-						node.Rtr.VerifExpireHello(w.V.IP())
-						_, _ = node.Rtr.HelloPing.Send(w.V.IP())
-					}
+					w.P.Rtr.VerifExpireHello(w.V.IP())
+					_, _ = w.P.Rtr.HelloPing.Send(w.V.IP())
 				}
 				var answers []*vnet.InFlight
 				for steps := 0; len(vn.Queue) > 0 && steps < 30; steps++ {
@@ -775,7 +774,24 @@ func TestC13Structured(t *testing.T) {
 						c.Fatalf("hello of the victim panicked %s: %v", fl.To.Name, vn.Panics)
 					}
 				}
-				if len(answers) >= 2 && c.Chance("own-hello.at-once", 1, 2) {
+				if both && !peerFirst {
+					// ... and so does the peer after it has answered: it was restarted
+					// (keys and pending state gone) and its next packet starts a setup.
+					_ = w.P.St.SetEncryptionSession(w.V.IP(), nil)
+					w.P.Rtr.VerifExpireHello(w.V.IP())
+					_, _ = w.P.Rtr.HelloPing.Send(w.V.IP())
+					for steps := 0; len(vn.Queue) > 0 && steps < 30; steps++ {
+						fl := vn.Drop(0)
+						if fl.To == w.V {
+							answers = append(answers, fl)
+							continue
+						}
+						if r := vn.Inject(fl.To, fl.Link, fl.Data); r.Panicked {
+							c.Fatalf("hello of the peer panicked %s: %v", fl.To.Name, vn.Panics)
+						}
+					}
+				}
+				if len(answers) >= 2 && c.Chance("own-hello.at-once", 2, 3) {
 					// Two of the peer's messages (its own request, its answer) reach the
 					// victim together and are handled by two workers, one of them held
 					// at a generated schedule point.
